@@ -268,8 +268,14 @@ func (s *Store) CARootSetCAS(idx, cidx uint64, rs []*structs.CARoot) (bool, erro
 	tx := s.db.WriteTxn(idx)
 	defer tx.Abort()
 
+	// caRootSetCASTxn validates the roots and then silently does nothing when
+	// the index does not match; only report success when it applied them.
+	matched := maxIndexTxn(tx, tableConnectCARoots) == cidx
 	if err := caRootSetCASTxn(tx, idx, cidx, rs); err != nil {
 		return false, err
+	}
+	if !matched {
+		return false, nil
 	}
 
 	err := tx.Commit()
